@@ -344,6 +344,12 @@ class Sess:
     def connection_made(self, chan):
         self.chan = chan
         self._ev('made')
+
+        if self.name.startswith('C'):
+            # a client session between the open of its channel and the
+            # answer to the request that starts it
+            self.run.opening[self.name] = chan
+
         early = self.run.plan.get('early')
 
         if early and self.name == 'S%d' % early['nth']:
@@ -362,6 +368,7 @@ class Sess:
 
     def session_started(self):
         self._ev('started')
+        self.run.opening.pop(self.name, None)
 
         if not self.started.done():
             self.started.set_result(True)
@@ -401,6 +408,7 @@ class Sess:
 
     def connection_lost(self, exc):
         self._ev('lost')
+        self.run.opening.pop(self.name, None)
 
         if not self.started.done():
             self.started.set_result(False)
@@ -510,6 +518,7 @@ class Run:
         self.aborted = []
         self.abort_sent = []
         self.cur = {}
+        self.opening = {}
         self.app_cb = 0
         self.sess_count = 0
         self.conn = None
@@ -1013,6 +1022,31 @@ def run_plan(plan, sched_seed=None, sched_replay=None):
                         'hang', '%s: the peer has closed the channel, yet '
                         'drain() on it is still waiting' % name,
                         sig='drain-after-peer-close')
+                    break
+
+        # a session being opened whose channel the peer has closed: the
+        # request that starts it will get no answer any more, the call
+        # that waits for it has to end
+        for name, chan in sorted(run.opening.items()):
+            owner_conn, num = getattr(chan, '_conn', None), \
+                getattr(chan, '_recv_chan', None)
+
+            digits = ''.join(c for c in name if c.isdigit())
+            drv = run.drivers.get(int(digits)) if digits else None
+
+            if owner_conn is None or num is None or drv is None or \
+                    drv.done():
+                continue
+
+            for label, pkts in sim.pkts.items():
+                if sim.conns.get(label) is owner_conn and any(
+                        d == 'R' and t == 97 and len(payload) >= 5 and
+                        int.from_bytes(payload[1:5], 'big') == num
+                        for d, t, _seq, payload, _note in pkts):
+                    world.violation(
+                        'hang', '%s: the peer has closed the channel, yet '
+                        'the call opening the session on it is still '
+                        'waiting' % name, sig='open-after-peer-close')
                     break
 
         for name, owner_conn, peer_num in run.abort_sent:
